@@ -42,6 +42,10 @@ RlOf(e)    == [i \in 1..Len(e.rl) |-> <<e.rl[i][1], e.rl[i][2]>>]
 
 Gone(e, s) == {x \in Live(s) \cap Probed(e) : ObsV(e)[x] = None}
 
+\* Logs of free-running threads cannot read size() after every call (size = -1): the size the
+\* specification expects is carried instead (those runs have no expiry and no eviction).
+SzOr(e, expected) == IF e.size >= 0 THEN e.size ELSE expected
+
 (* Observable part := what the code showed; hidden part := specification.  *)
 Resync(c, e, s2) ==
   LET ov == ObsV(e)  oc == ObsC(e)  sk == Skip(e)
@@ -49,7 +53,7 @@ Resync(c, e, s2) ==
                        !.cnt   = IF c.kind \in CntKinds
                                  THEN [x \in Keys |-> IF x \in sk THEN s2.cnt[x] ELSE oc[x]]
                                  ELSE s2.cnt,
-                       !.size  = e.size]
+                       !.size  = IF e.size >= 0 THEN e.size ELSE s2.size]
   IN NormUnr(Repair(c, s3))
 
 (* Checks every call shares: the projection equals the expected state.     *)
@@ -58,8 +62,8 @@ LiveEq(e, s2)   == \A x \in Probed(e) : (ObsV(e)[x] # None) = (s2.store[x] # Non
 CntEq(c, e, s2) == c.kind \in CntKinds =>
                       \A x \in Probed(e) : (s2.store[x] # None => ObsC(e)[x] = s2.cnt[x])
 Observers(c, e) ==
-  JJ({"C02"}, /\ (e.empty = 1) = (e.size = 0)
-              /\ c.kind \in CacheKinds => e.cap = c.cap)
+  JJ({"C02"}, e.size >= 0 => (/\ (e.empty = 1) = (e.size = 0)
+                              /\ c.kind \in CacheKinds => e.cap = c.cap))
 
 -----------------------------------------------------------------------------
 (* A live key that the projection could not probe (the harness cannot rule out that it  *)
@@ -72,7 +76,8 @@ GoneSets(e, s) ==
 TrInsert(c, t, s, e) ==
   \E g \in GoneSets(e, s) :
   LET v   == Val(c, e.v)
-      out == [ret |-> e.ret = 1, gone |-> g, sz |-> e.size]
+      out == [ret |-> e.ret = 1, gone |-> g,
+              sz |-> SzOr(e, NLive(s) + (IF e.ret = 1 /\ s.store[e.k] = None THEN 1 ELSE 0) - Cardinality(g))]
       s2  == ElemInsert(c, t, s, e.k, v, e.a, e.d, out)
       aging == InsertWillAge(c, s, e.k, out) /\ AgeAll(c, t, s) # s
   IN /\ OkInsert(Strict, c, t, s, e.k, e.a, e.d, out)
@@ -83,7 +88,10 @@ TrInsert(c, t, s, e) ==
      /\ st' = Resync(c, e, s2)
 
 TrErase(c, t, s, e) ==
-  LET out == [ret |-> e.ret = 1, gone |-> Gone(e, s), sz |-> e.size]
+  LET out == [ret |-> e.ret = 1,
+              \* an erased key the projection could not probe is taken to be gone iff the call said so
+              gone |-> Gone(e, s) \cup (IF e.ret = 1 /\ e.k \in Skip(e) /\ s.store[e.k] # None THEN {e.k} ELSE {}),
+              sz |-> SzOr(e, NLive(s) - (IF e.ret = 1 /\ s.store[e.k] # None THEN 1 ELSE 0))]
       s2  == ElemErase(c, t, s, e.k, out)
   IN /\ OkErase(Strict, c, t, s, e.k, out)
      /\ JJ({"C01"}, ValuesEq(e, s2))
@@ -94,7 +102,7 @@ TrErase(c, t, s, e) ==
 
 TrFind(c, t, s, e, wc) ==
   LET peek == e.p = 1
-      out  == [val |-> e.ret, rc |-> e.rc, wc |-> wc, sz |-> e.size]
+      out  == [val |-> e.ret, rc |-> e.rc, wc |-> wc, sz |-> SzOr(e, s.size)]
       s2   == ElemFind(c, t, s, e.k, peek, out)
   IN /\ OkFind(Strict, c, t, s, e.k, peek, out)
      /\ JJ({"C03"}, Gone(e, s) = {})
@@ -107,7 +115,7 @@ TrFind(c, t, s, e, wc) ==
 (* Range calls: some run of the fold must explain the result and the projection. *)
 RangeMatch(c, e, x, accOk) ==
   /\ LiveEq(e, x.st)
-  /\ JJ({"C02", "C03", "C16", "C17", "C18"}, x.st.size = e.size)
+  /\ JJ({"C02", "C03", "C16", "C17", "C18"}, e.size >= 0 => x.st.size = e.size)
   /\ accOk
   /\ JJ({"C01", "C18", "C04", "C05", "C19"}, ValuesEq(e, x.st))
   /\ JJ({"C11", "C14", "C18", "C19"}, CntEq(c, e, x.st))
@@ -129,14 +137,14 @@ TrFindRange(c, t, s, e) ==
                   /\ st' = Resync(c, e, x.st)
 
 TrClean(c, t, s, e) ==
-  LET out == [ret |-> e.ret, gone |-> Gone(e, s), sz |-> e.size]
+  LET out == [ret |-> e.ret, gone |-> Gone(e, s), sz |-> SzOr(e, NLive(s))]
       s2  == ElemClean(c, t, s, out)
   IN /\ OkClean(Strict, c, t, s, out)
      /\ JJ({"C01", "C17"}, ValuesEq(e, s2))
      /\ st' = Resync(c, e, s2)
 
 TrAge(c, t, s, e) ==
-  LET out == [ret |-> e.ret, sz |-> e.size]
+  LET out == [ret |-> e.ret, sz |-> SzOr(e, s.size)]
       s2  == ElemAge(c, t, s, out)
   IN /\ OkAge(Strict, c, t, s, out)
      /\ JJ({"C03"}, Gone(e, s) = {})
@@ -145,7 +153,7 @@ TrAge(c, t, s, e) ==
      /\ st' = Resync(c, e, s2)
 
 TrUttl(c, t, s, e) ==
-  LET out == [sz |-> e.size]
+  LET out == [sz |-> SzOr(e, s.size)]
       s2  == ElemUttl(c, t, s, e.d, out)
   IN /\ OkUttl(Strict, c, t, s, out)
      /\ JJ({"C03", "C05"}, Gone(e, s) = {})
@@ -155,7 +163,7 @@ TrUttl(c, t, s, e) ==
 TrClear(c, t, s, e) ==
   LET s2 == ElemClear(c, t, s)
   IN /\ JJ({"C20", "C01"}, ValuesEq(e, s2))
-     /\ JJ({"C20", "C02"}, e.size = 0)
+     /\ JJ({"C20", "C02"}, e.size >= 0 => e.size = 0)
      /\ st' = Resync(c, e, s2)
 
 TrTick(c, t2, s, e) ==
@@ -169,7 +177,7 @@ TrTick(c, t2, s, e) ==
 \* A pure observation.  For ut_map / ut_set the probes are lookups, i.e. a call that purges.
 TrObs(c, t, s, e) ==
   LET s2 == RangeStart(c, s) IN
-  /\ JJ({"C02", "C17"}, e.size = s2.size)
+  /\ JJ({"C02", "C17"}, e.size >= 0 => e.size = s2.size)
   /\ JJ({"C03", "C05"}, LiveEq(e, s2))
   /\ JJ({"C01"}, ValuesEq(e, s2))
   /\ JJ({"C11", "C14"}, CntEq(c, e, s2))
@@ -177,8 +185,8 @@ TrObs(c, t, s, e) ==
 
 \* The observers as calls (concurrent logs): what they returned is what the projection shows.
 TrObserver(c, t, s, e) ==
-  /\ JJ({"C02", "C06"}, CASE e.op = "size"     -> e.ret = e.size
-                          [] e.op = "empty"    -> (e.ret = 1) = (e.size = 0)
+  /\ JJ({"C02", "C06"}, CASE e.op = "size"     -> e.ret = SzOr(e, s.size)
+                          [] e.op = "empty"    -> (e.ret = 1) = (SzOr(e, s.size) = 0)
                           [] e.op = "capacity" -> (c.kind \in CacheKinds => e.ret = c.cap))
   /\ TrObs(c, t, s, e)
 
